@@ -580,10 +580,85 @@ class LockGraph:
                             used.add(a['l'])
                     if 'fn' in a and (a.get('res') or a['fn']) in self.bl:
                         sites.append((pos, a.get('res') or a['fn'], [], 'fnptr', t))
+            # a closure value captured by ANOTHER closure that calls it (a predicate handed to a helper whose iterator-adaptor closure
+            # applies it to each item): the inner closure runs where the outer one is consumed, its parameters are (projections of)
+            # the outer closure's item parameter
+            consumer_of = {}
+            for pos, t in b.iter_calls():
+                for a in t['args']:
+                    if is_local_op(a) and a['l'] in clos and a['l'] not in consumer_of:
+                        consumer_of[a['l']] = (pos, t)
+            for lm, (mpos, mfn, mops) in clos.items():
+                if mfn not in self.bl or lm not in consumer_of:
+                    continue
+                MB = self.bl[mfn]
+                for i, op in enumerate(mops):
+                    inner = self._closure_behind(b, op, clos)
+                    if inner is None or inner == lm:
+                        continue
+                    qpos, lfn, lops = clos[inner]
+                    if lfn not in self.bl:
+                        continue
+                    for cpos, ct in MB.b.iter_calls():
+                        if re.search(r'ops::Fn(Mut|Once)?::call(_mut|_once)?$', callee_generic(ct) or '') and len(ct['args']) >= 2 and self._is_upvar(MB.b, ct['args'][0], i):
+                            cpos_, ct_ = consumer_of[lm]
+                            sites.append((cpos_, lfn, {'tuple': ct['args'][1], 'MB': MB, 'lops': lops}, 'closure-nested', ct_))
+                            used.add(inner)
+            # a closure value that is called directly in this body (`predicate(item)` of an inlined helper that takes the predicate
+            # as a parameter, or a local `let check = |x| ..; check(a)`): its parameters are the components of the argument tuple
+            for pos, t in b.iter_calls():
+                if re.search(r'ops::Fn(Mut|Once)?::call(_mut|_once)?$', callee_generic(t) or '') and len(t['args']) >= 2:
+                    inner = self._closure_behind(b, t['args'][0], clos)
+                    if inner is not None and clos[inner][1] in self.bl:
+                        sites.append((pos, clos[inner][1], {'tuple': t['args'][1], 'MB': None, 'lops': clos[inner][2]}, 'closure-direct', t))
+                        used.add(inner)
             for l, (qpos, fn, ops) in clos.items():
                 if l not in used and fn in self.bl:
                     sites.append((qpos, fn, ops, 'closure', None))
             self.sites[bid] = sites
+
+    @staticmethod
+    def _closure_behind(b, op, clos, depth=8):
+        """the closure local that operand op is a copy of / a reference to"""
+        from flow import defs_of
+        work, seen = [op], set()
+        while work and depth > 0:
+            depth -= 1
+            o = work.pop()
+            if not is_local_op(o) or o['l'] in seen:
+                continue
+            if o['l'] in clos and not [x for x in o.get('p', []) if x != '*']:
+                return o['l']
+            seen.add(o['l'])
+            for q, st in defs_of(b, o['l']):
+                if st['k'] == 'assign' and st['rv']['k'] in ('use', 'cast'):
+                    work.append(st['rv']['o'])
+                elif st['k'] == 'assign' and st['rv']['k'] in ('ref', 'rawptr'):
+                    work.append({'l': st['rv']['pl']['l'], 'p': [x for x in st['rv']['pl']['p'] if x != '*']})
+        return None
+
+    @staticmethod
+    def _is_upvar(mb, op, i, depth=8):
+        """operand op of a closure body is (a reborrow / copy of) captured variable i of the closure environment (_1)"""
+        from flow import defs_of
+        work, seen = [op], set()
+        while work and depth > 0:
+            depth -= 1
+            o = work.pop()
+            if not is_local_op(o):
+                continue
+            proj = [x for x in o.get('p', []) if x != '*']
+            if o['l'] == 1 and proj and proj[0].rsplit('.', 1)[-1] == str(i) and len(proj) == 1:
+                return True
+            if o['l'] in seen or proj:
+                continue
+            seen.add(o['l'])
+            for q, st in defs_of(mb, o['l']):
+                if st['k'] == 'assign' and st['rv']['k'] in ('use', 'cast'):
+                    work.append(st['rv']['o'])
+                elif st['k'] == 'assign' and st['rv']['k'] in ('ref', 'rawptr'):
+                    work.append(st['rv']['pl'])
+        return False
 
     def apply_steps(self, BL, v, steps):
         for st in steps:
@@ -613,6 +688,48 @@ class LockGraph:
                 ct = consumer
                 if self.ITEM_CONSUMERS.search(callee_generic(ct) or '') and ct['args'] and is_local_op(ct['args'][0]):
                     owns = self.apply_steps(BL, BL.eval_op(ct['args'][0], 48, frozenset()), path)
+            if owns is None:
+                owns = [entry.own] if base[0] in ('fresh', 'lookup') else [(('unknown', 'closure-arg'), ())]
+        elif kind == 'closure-direct':
+            info = args
+            if base == ('closure-env',) and path and path[0].startswith('upvar:'):
+                j = int(path[0][6:])
+                if j < len(info['lops']) and is_local_op(info['lops'][j]):
+                    owns = self.apply_steps(BL, BL.eval_op(info['lops'][j], 48, frozenset()), path[1:])
+            elif base[0] == 'param' and base[1] >= 2 and is_local_op(info['tuple']):
+                from flow import defs_of
+                for q, st in defs_of(BL.b, info['tuple']['l']):
+                    if st['k'] == 'assign' and st['rv']['k'] in ('agg', 'tuple') and len(st['rv'].get('ops', [])) > base[1] - 2:
+                        comp = st['rv']['ops'][base[1] - 2]
+                        if is_local_op(comp):
+                            owns = self.apply_steps(BL, BL.eval_op(comp, 48, frozenset()), path)
+            if owns is None:
+                owns = [entry.own] if base[0] in ('fresh', 'lookup') else [(('unknown', 'closure-arg'), ())]
+        elif kind == 'closure-nested':
+            info = args
+            MB = info['MB']
+            if base == ('closure-env',) and path and path[0].startswith('upvar:'):
+                j = int(path[0][6:])
+                if j < len(info['lops']) and is_local_op(info['lops'][j]):
+                    owns = self.apply_steps(BL, BL.eval_op(info['lops'][j], 48, frozenset()), path[1:])
+            elif base[0] == 'param' and base[1] >= 2 and consumer is not None and self.ITEM_CONSUMERS.search(callee_generic(consumer) or '') and consumer['args'] and is_local_op(consumer['args'][0]):
+                # the k-th parameter of the inner closure is the (k-2)-th component of the argument tuple built in the outer closure
+                from flow import defs_of
+                comp = None
+                tl = info['tuple']
+                if is_local_op(tl):
+                    for q, st in defs_of(MB.b, tl['l']):
+                        if st['k'] == 'assign' and st['rv']['k'] in ('agg', 'tuple') and len(st['rv'].get('ops', [])) > base[1] - 2:
+                            comp = st['rv']['ops'][base[1] - 2]
+                if comp is not None and is_local_op(comp):
+                    owns = []
+                    for (mb_, mp_) in MB.as_owns(MB.eval_op(comp, 48, frozenset())):
+                        if mb_[0] == 'param' and mb_[1] >= 2:
+                            owns += self.apply_steps(BL, BL.eval_op(consumer['args'][0], 48, frozenset()), tuple(mp_) + tuple(path))
+                        elif mb_[0] in ('fresh', 'lookup'):
+                            owns.append((mb_, mp_))
+                        else:
+                            owns.append((('unknown', 'closure-arg'), ()))
             if owns is None:
                 owns = [entry.own] if base[0] in ('fresh', 'lookup') else [(('unknown', 'closure-arg'), ())]
         elif kind == 'fnptr':
